@@ -101,6 +101,8 @@ pub struct VhostUserHandler<T: VhostUserBackend> {
     mappings: Vec<AddrMapping>,
     atomic_mem: GM<T::Bitmap>,
     vrings: Vec<T::Vring>,
+    // Dirty log set by VHOST_USER_SET_LOG_BASE, also applied to regions mapped later.
+    logmem: Option<Arc<MmapLogReg>>,
     #[cfg(feature = "postcopy")]
     uffd: Option<Uffd>,
     worker_threads: Vec<thread::JoinHandle<VringEpollResult<()>>>,
@@ -164,6 +166,7 @@ where
             mappings: Vec::new(),
             atomic_mem,
             vrings,
+            logmem: None,
             #[cfg(feature = "postcopy")]
             uffd: None,
             worker_threads,
@@ -253,6 +256,25 @@ where
         } else {
             Err(VhostUserError::InactiveFeature(feat))
         }
+    }
+}
+
+impl<T: VhostUserBackend> VhostUserHandler<T>
+where
+    T::Bitmap: BitmapReplace + NewBitmap + Clone,
+{
+    /// Keeps dirty-page logging in force for a memory region that is mapped after
+    /// `VHOST_USER_SET_LOG_BASE` was received.
+    fn attach_log(&self, region: &GuestRegionMmap<T::Bitmap>) -> VhostUserResult<()> {
+        if let Some(logmem) = &self.logmem {
+            let bitmap = <<T as VhostUserBackend>::Bitmap as BitmapReplace>::InnerBitmap::new(
+                region,
+                Arc::clone(logmem),
+            )
+            .map_err(VhostUserError::ReqHandlerError)?;
+            (*region).bitmap().replace(bitmap);
+        }
+        Ok(())
     }
 }
 
@@ -349,6 +371,7 @@ where
             .ok_or(VhostUserError::ReqHandlerError(
                 io::ErrorKind::InvalidInput.into(),
             ))?;
+            self.attach_log(&guest_region)?;
             mappings.push(AddrMapping {
                 #[cfg(feature = "postcopy")]
                 local_addr: guest_region.as_ptr() as u64,
@@ -662,6 +685,7 @@ where
                 io::ErrorKind::InvalidInput.into(),
             ))?,
         );
+        self.attach_log(&guest_region)?;
 
         let addr_mapping = AddrMapping {
             #[cfg(feature = "postcopy")]
@@ -824,6 +848,7 @@ where
         for (region, bitmap) in bitmaps {
             (*region).bitmap().replace(bitmap);
         }
+        self.logmem = Some(logmem);
 
         Ok(())
     }
